@@ -120,22 +120,19 @@ Proof. exact session_then_top_lemma. Qed.
 Print Assumptions session_usable_afterwards.
 
 (* -- annotated source listing (internal/report/source.go:716 functions, :663 generateFile) --
-   absent overflow, merging a line into the preceding function extends it by fewer than 20 lines, so the
-   per-line loop of generateFile stays proportional to the number of profiled lines ... *)
+   merging a line into the preceding function extends it by fewer than 20 line numbers, for ALL int64 line
+   numbers (the unsigned distance cannot wrap; F25 was the signed subtraction wrapping for lines 2^63 or more
+   apart, after which generateFile walked ~2^63 line numbers) *)
 Theorem weblist_merge_extends_by_less_than_limit : forall e l,
   min_i64 <= e <= max_i64 -> min_i64 <= l <= max_i64 -> e <= l ->
-  l - e < 9223372036854775808 -> merges e l = true -> l - e < merge_limit.
+  (merges e l = true <-> l - e < merge_limit).
 Proof. exact merges_near_lemma. Qed.
 Print Assumptions weblist_merge_extends_by_less_than_limit.
 
-(* ... F25: with two lines of one function 2^63 or more apart the subtraction wraps, the lines are
-   merged and generateFile visits ~2^63 line numbers: pprof hangs (witness: lines -20 and MaxInt64-10) *)
-Theorem weblist_never_hangs_refuted :
-  in_F25 [-20; 9223372036854775797] = true /\
-  merge_lines None [-20; 9223372036854775797] = [(-20, 9223372036854775798)] /\
-  9223372036854775807 < visits (-20, 9223372036854775798).
-Proof. vm_compute. repeat split; reflexivity. Qed.
-Print Assumptions weblist_never_hangs_refuted.
+(* the former F25 witness (lines -20 and MaxInt64-10 of one function) is no longer merged *)
+Example weblist_former_f25_witness :
+  merge_lines None [-20; 9223372036854775797] = [(-20, -19); (9223372036854775797, 9223372036854775798)].
+Proof. vm_compute. reflexivity. Qed.
 
 (* -- non-vacuity and the necessity of the hypotheses -- *)
 Definition su (v : Z) (f t : string) : string := snd (scale unit_types v f t).
@@ -150,9 +147,8 @@ Example tag_range_examples :
 Proof. vm_compute. repeat split; reflexivity. Qed.
 
 Example weblist_merge_examples :
-  merge_lines None [10; 12; 40; 41] = [(10, 13); (40, 42)] /\ in_F25 [10; 12; 40; 41] = false /\
-  in_F25 [-1; 9223372036854775807] = false.
-Proof. vm_compute. repeat split; reflexivity. Qed.
+  merge_lines None [10; 12; 40; 41] = [(10, 13); (40, 42)].
+Proof. vm_compute. reflexivity. Qed.
 
 Example locate_example :
   locate_candidates (fun s => s) (fun s => s) "P" "" "ab" [] = Ok [["P"; "ab"; ""]; ["P"; ""; "ab"]] /\
